@@ -372,6 +372,16 @@ func writeOptions(o wopts, cb *cbCount) []resource.WriteOption {
 			}
 		}))
 	}
+	if o.Ia == 2 {
+		// a stamp on every successful write, whether or not the write changed anything
+		ws = append(ws, resource.InterceptAfter(func(old, new proto.Message) {
+			k := 0
+			if t, ok := old.(*testproto.TestAllTypes); ok && t != nil {
+				fmt.Sscanf(t.DefaultString, "s%d", &k)
+			}
+			new.(*testproto.TestAllTypes).DefaultString = fmt.Sprintf("s%d", k%3+1)
+		}))
+	}
 	if o.Wt >= 0 {
 		ws = append(ws, resource.WithWriteTime(concTime(o.Wt)))
 	}
